@@ -168,7 +168,7 @@ func c02Run(c core.Case) core.Result {
 	case "method":
 		conts := c16Containers()
 		als := c16ArgLists()
-		methods := []string{"Method", "PtrMethod", "Add", "Greet", "IntArg", "Var", "Two", "None", "Field", "missing"}
+		methods := []string{"Method", "PtrMethod", "Add", "Greet", "IntArg", "Var", "Two", "None", "Field", "missing", "Join"}
 		ci, mi, ai := c.N[0], c.N[1], c.N[2]
 		args := als[ai]
 		var names []string
@@ -232,9 +232,9 @@ func c02Levels(tier string) []core.Level {
 				}
 			}
 		}},
-		{Name: "method calls: every struct-like container x 10 attribute names x every argument list of length 0..3", Gen: func(emit func(core.Case)) {
+		{Name: "method calls: every struct-like container x 11 attribute names x every argument list of length 0..3", Gen: func(emit func(core.Case)) {
 			for ci := range c16Containers() {
-				for mi := 0; mi < 10; mi++ {
+				for mi := 0; mi < 11; mi++ {
 					for ai := range c16ArgLists() {
 						emit(core.Case{Fam: "method", N: []int{ci, mi, ai}})
 					}
